@@ -87,9 +87,23 @@ func (c20) Generate(r *engine.Rand, index int, tier string) *engine.Scenario {
 		sc.Events = append(sc.Events, engine.Event{At: at, K: "bus_w", A: a, V: v})
 		at++
 	}
+	// routing and level values: random, or everything routed that may be routed / equal levels on both sides
+	nr51 := func() uint8 {
+		if r.Chance(1, 3) {
+			return 0xff & routeMask
+		}
+		return r.Byte() & routeMask
+	}
+	nr50 := func() uint8 {
+		if r.Chance(1, 3) {
+			x := r.Byte() & 7
+			return x | x<<4 | r.Byte()&0x88
+		}
+		return r.Byte()
+	}
 	add(0xff26, 0x80)
-	add(0xff24, r.Byte())
-	add(0xff25, r.Byte()&routeMask)
+	add(0xff24, nr50())
+	add(0xff25, nr51())
 	if cls == "route" && r.Bool() {
 		// the channel kept off one side plays a note that runs out (length counter at zero, length register
 		// not rewritten) and is restarted again and again by its NRx4 alone, while the other channels play
@@ -128,12 +142,12 @@ func (c20) Generate(r *engine.Rand, index int, tier string) *engine.Scenario {
 			add(0xff26, 0x00)
 			at += uint64(r.Range(1, 3000))
 			add(0xff26, 0x80)
-			add(0xff25, r.Byte()&routeMask)
-			add(0xff24, r.Byte())
+			add(0xff25, nr51())
+			add(0xff24, nr50())
 		case k < 3:
-			add(0xff25, r.Byte()&routeMask)
+			add(0xff25, nr51())
 		case k == 3:
-			add(0xff24, r.Byte())
+			add(0xff24, nr50())
 		case k < 6:
 			add(0xff30+uint16(r.Intn(16)), r.Byte())
 		default:
@@ -159,6 +173,14 @@ func (c20) Generate(r *engine.Rand, index int, tier string) *engine.Scenario {
 				add(0xff21, r.Byte()|0x08)
 				add(0xff22, r.Byte())
 				add(0xff23, 0x80|r.Byte()&0x40)
+			}
+			if c != 2 && r.Chance(1, 10) {
+				// the envelope register of the playing channel rewritten dozens of times in a row (period 0,
+				// DAC on) with no new trigger: samples stay within [0,1)
+				nrx2 := []uint16{0xff12, 0xff17, 0, 0xff21}[c]
+				for j, q := 0, r.Range(40, 90); j < q; j++ {
+					add(nrx2, 0xf0|uint8(r.Intn(2))<<3)
+				}
 			}
 		}
 	}
